@@ -138,6 +138,9 @@ type vfConsOp struct {
 	// Pal: a palette entry is redefined (SetPaletteColor) before the operation; the operation must then paint with the
 	// colours as redefined (the reference keeps its own palette)
 	Pal *vfPalOp `json:"palette_update,omitempty"`
+	// Before: operations performed first (writes, fills, palette redefinitions); the checked operation must paint
+	// correctly whatever came before it (state kept between operations - caches, scratch slots - is part of the console)
+	Before []vfConsOp `json:"before,omitempty"`
 }
 
 type vfPalOp struct {
@@ -194,6 +197,26 @@ func vf19Fb(run *verifrt.Run, c vfFbCfg, op vfConsOp) {
 	for i, pc := range cons.palette {
 		if pc != nil {
 			model[i] = pc.(color.RGBA)
+		}
+	}
+	for _, pre := range op.Before {
+		var ppan interface{}
+		func() {
+			defer func() { ppan = recover() }()
+			switch {
+			case pre.Pal != nil:
+				nc := color.RGBA{pre.Pal.R, pre.Pal.G, pre.Pal.B, pre.Pal.A}
+				cons.SetPaletteColor(pre.Pal.Idx, nc)
+				model[pre.Pal.Idx] = nc
+			case pre.Op == "write":
+				cons.Write(pre.Ch, pre.Fg, pre.Bg, pre.X, pre.Y)
+			case pre.Op == "fill":
+				cons.Fill(pre.X, pre.Y, pre.W, pre.H, pre.Fg, pre.Bg)
+			}
+		}()
+		if ppan != nil {
+			report("panic", fmt.Sprintf("an earlier operation of the sequence panicked: %v", ppan))
+			return
 		}
 	}
 	if op.Pal != nil {
@@ -564,6 +587,45 @@ func TestVerifC19(t *testing.T) {
 			}
 		}
 	}
+	// sequences: up to three earlier operations (writes, fills, palette redefinitions on entries c and 0) and then a
+	// checked write or fill with those entries - state carried from one operation to the next
+	for _, d := range depths {
+		idx++
+		if !run.Mine(idx) {
+			continue
+		}
+		c := vfFbCfg{2, 2, "synth8x2", d.bpp, d.mask, 5, 3, 0, false}
+		probe := vfMkFb(c)
+		for _, ci := range []uint8{1, 7} {
+			oc, _ := probe.palette[ci].(color.RGBA)
+			o0, _ := probe.palette[0].(color.RGBA)
+			pres := []vfConsOp{
+				{Op: "write", X: 2, Y: 1, Ch: 'B', Fg: ci, Bg: 0}, {Op: "write", X: 2, Y: 1, Ch: 'B', Fg: 0, Bg: ci},
+				{Op: "fill", X: 1, Y: 2, W: 1, H: 1, Bg: ci}, {Op: "fill", X: 1, Y: 2, W: 1, H: 1, Bg: 0},
+				{Pal: &vfPalOp{ci, oc.R ^ 0x80, oc.G ^ 0x40, oc.B, oc.A}}, {Pal: &vfPalOp{0, o0.R ^ 0x40, o0.G, o0.B ^ 0x80, o0.A}},
+			}
+			finals := []vfConsOp{
+				{Op: "write", X: 1, Y: 1, Ch: 'A', Fg: ci, Bg: 0}, {Op: "write", X: 1, Y: 1, Ch: 'A', Fg: 0, Bg: ci},
+				{Op: "fill", X: 2, Y: 2, W: 1, H: 1, Bg: ci}, {Op: "fill", X: 2, Y: 2, W: 1, H: 1, Bg: 0},
+			}
+			var rec func(cur []vfConsOp)
+			rec = func(cur []vfConsOp) {
+				if len(cur) > 0 {
+					for _, f := range finals {
+						f.Before = append([]vfConsOp(nil), cur...)
+						vf19Fb(run, c, f)
+					}
+				}
+				if len(cur) == 3 {
+					return
+				}
+				for _, p := range pres {
+					rec(append(cur, p))
+				}
+			}
+			rec(nil)
+		}
+	}
 	// text mode
 	for cols := uint32(1); cols <= 4; cols++ {
 		for rows := uint32(1); rows <= 4; rows++ {
@@ -585,6 +647,6 @@ func TestVerifC19(t *testing.T) {
 			vf19Vga(run, 80, 25, true, op)
 		}
 	}
-	run.Finish(true, "framebuffer: grids 1..3 x 1..3, fonts {8x2, 9x2, 16x1 synthetic, shipped 8x16; thorough: 12x3 and all three shipped fonts}, depths {8,15,16,24,32} with mask layouts {5-5-5, 5-6-5, RGB888, BGR888}, pitch padding {0,(1),5}, logo rows {0,(1),3}, remainder rows {0,1}, pristine and fully written pre-states; every uint32 argument from {0,1,2,dim-1,dim,dim+1,2^31,2^32-2,2^32-1}; text mode grids 1..4 x 1..4 and 80x25; full product per operation (Write, Fill, Scroll up/down); Write/Fill after a palette entry was redefined (5 entries x 5 new colours incl. same-packing ones) against the reference's own palette",
+	run.Finish(true, "framebuffer: grids 1..3 x 1..3, fonts {8x2, 9x2, 16x1 synthetic, shipped 8x16; thorough: 12x3 and all three shipped fonts}, depths {8,15,16,24,32} with mask layouts {5-5-5, 5-6-5, RGB888, BGR888}, pitch padding {0,(1),5}, logo rows {0,(1),3}, remainder rows {0,1}, pristine and fully written pre-states; every uint32 argument from {0,1,2,dim-1,dim,dim+1,2^31,2^32-2,2^32-1}; text mode grids 1..4 x 1..4 and 80x25; full product per operation (Write, Fill, Scroll up/down); Write/Fill after a palette entry was redefined (5 entries x 5 new colours incl. same-packing ones) against the reference's own palette; every sequence of <=3 earlier writes/fills/palette redefinitions followed by a checked write or fill",
 		"distinct = console configuration; each case compares every byte of the framebuffer with the pixel/cell reference")
 }
